@@ -23,6 +23,12 @@ def run_check(prop, tier, seed, root):
             stability(ctx, mod, prop, seed, root)
         return finish(ctx), ctx
     except AnalysisError as e:
+        if ctx is not None and ctx.findings:
+            # what was established before the analysis had to stop stands
+            print('NOTE property=%s analysis stopped early: %s' % (prop, e))
+            rc = finish(ctx)
+            if rc == 1:
+                return rc, ctx
         print('ANALYSIS-ERROR property=%s %s' % (prop, e))
         return 2, ctx
     except Exception as e:   # a checker bug is never a verdict
